@@ -18,7 +18,8 @@ package main
 // create-only on a simple resource.  Oracle failures only (no Coq cases: the codec-level model of exclusion is exercised by
 // the codec driver; this mode ties the specifications the generator hands to the codec).
 // Signatures: http:<method>:client-transmits-excluded  client-body-differs  client-call-failed  client-patch-not-refused:<set|delete>
-//   client-patch-refused:<set|delete>  server-accepts-excluded:<all|one|set|delete>  server-rejects-allowed[:<set|delete>]
+//   client-patch-refused:<set|delete>  client-patch-transmits-excluded:set-nested-full  server-accepts-excluded:<all|one|set|delete|set-nested-full>
+//   server-rejects-allowed[:<set|delete|set-nested-pruned>]
 
 import (
 	"bytes"
@@ -38,7 +39,7 @@ import (
 	"verifgen/hx"
 )
 
-const c07Site = "v2/codegen/resources/resource.go (ReadOnlyFields / CreateAndReadOnlyFields, readOnlyFields(), createAndReadOnlyFields()), " +
+const c07Site = "v2/codegen/resources/resource.go and codegen/resources/resource.go (ReadOnlyFields / CreateAndReadOnlyFields, readOnlyFields(), createAndReadOnlyFields()), " +
 	"generated <resource>/*.gr.go and RegisterResource; v2/restli/server.go Register*; restlicodec PathSpec"
 
 // the property's table, by method name
@@ -82,8 +83,9 @@ type c07 struct {
 	rep       *hx.Report
 	r         *hx.Rand
 	e         *env
-	threshold int  // Client.QueryTunnellingThreshold of e
-	long      bool // long queries: many batch keys, long query parameters
+	need      []string // paths a "full" entity must carry a value at (the excluded paths of the method under test)
+	threshold int      // Client.QueryTunnellingThreshold of e
+	long      bool     // long queries: many batch keys, long query parameters
 }
 
 // the request a tunnelled wire stands for (X-HTTP-Method-Override: the query and the JSON entity travel in the body of a POST),
@@ -259,26 +261,34 @@ func (d *c07) fullEntity(t reflect.Type) reflect.Value {
 	rt, _ := rtypeOf(t)
 	n := schema.Types[rt.Reference.Name]
 	for tries := 0; ; tries++ {
-		g := &genv{r: d.r.Fork(), tame: true}
+		r := d.r.Fork()
 		old := tameStrings
 		tameStrings = true
-		v := schema.gen(g.r, rt, genOpts{utf8: true, depth: 3})
+		o := genOpts{utf8: true, depth: 3}
+		v := &Val{K: "rec"}
+		for _, inc := range n.Includes {
+			v.Incs = append(v.Incs, schema.gen(r, ref(inc), o))
+		}
+		for _, f := range n.Fields {
+			v.Fields = append(v.Fields, schema.gen(r, f.Type, o)) // optional fields too
+		}
 		tameStrings = old
-		all := true
-		for _, f := range v.Fields {
-			if f == nil {
-				all = false
-			}
-		}
-		if !all && tries < 200 {
-			continue
-		}
-		if !all {
-			panic("cannot generate a fully populated " + n.Name)
-		}
 		dst := reflect.New(t).Elem()
 		schema.toGo(rt, v, dst)
-		return dst
+		// ... and a value at every (nested) path the current method excludes
+		j := marshalFull(dst)
+		ok := true
+		for _, p := range d.need {
+			if !hasPath(j, strings.Split(p, "/")) {
+				ok = false
+			}
+		}
+		if ok {
+			return dst
+		}
+		if tries > 500 {
+			panic("cannot generate a fully populated " + n.Name)
+		}
 	}
 }
 
@@ -425,6 +435,7 @@ func sortedKeys(m map[string]interface{}) []string {
 func (d *c07) entityMethod(mi *methodInfo) {
 	method := mi.Spec.Name
 	ex := expectedExcluded(mi.Res.Spec, method)
+	d.need = ex
 	m := d.e.clientMethod(mi)
 	mt := m.Type()
 	ai := entityArg(mt, mi)
@@ -579,13 +590,23 @@ func hasAnyExcluded(e interface{}, ex []string) bool {
 func (d *c07) patchMethod(mi *methodInfo) {
 	method := mi.Spec.Name
 	ex := expectedExcluded(mi.Res.Spec, method)
-	touches := func(field string) bool { // a $set / $delete of the top-level field hits an excluded path (the field or something below it)
+	d.need = ex
+	excludedField := func(field string) bool { // the top-level field itself is excluded
 		for _, p := range ex {
-			if p == field || strings.HasPrefix(p, field+"/") {
+			if p == field {
 				return true
 			}
 		}
 		return false
+	}
+	below := func(field string) []string { // excluded paths strictly below the field, relative to it
+		var out []string
+		for _, p := range ex {
+			if strings.HasPrefix(p, field+"/") {
+				out = append(out, p[len(field)+1:])
+			}
+		}
+		return out
 	}
 	m := d.e.clientMethod(mi)
 	mt := m.Type()
@@ -605,6 +626,69 @@ func (d *c07) patchMethod(mi *methodInfo) {
 		panic("no Set_Fields in " + pt.String())
 	}
 	var valid *wire
+	// one partial update through the generated client.  expect: "refused" (error, nothing sent), "accepted" (sent, 2xx, resource
+	// invoked), "not-on-wire" (either refused, or sent without any value at an excluded path and accepted)
+	client := func(step, field string, p reflect.Value, expect string, nested []string) {
+		g := &genv{r: d.r.Fork(), tame: true}
+		args := genArgs(g, mi, mt)
+		if d.long && !d.longParams(args, mi) && method != "batch_partial_update" {
+			return // no query to make long
+		}
+		if method == "batch_partial_update" {
+			mp := reflect.MakeMap(at)
+			n := 1
+			if d.long {
+				n = 40
+			}
+			for _, k := range d.keys(g, at.Key(), n) {
+				mp.SetMapIndex(k, p)
+			}
+			args[ai] = mp
+		} else {
+			args[ai] = p
+		}
+		c := d.newCase(mi, "client:patch-"+step)
+		c.Field = field
+		w, cr := d.call(mi, args, c)
+		d.count(c)
+		went := cr.Err == nil && cr.Paniced == "" && w != nil && c.Status >= 200 && c.Status <= 299 && c.Invoked == 1
+		refused := cr.Err != nil && c.Sent == 0
+		switch expect {
+		case "refused":
+			if !refused {
+				d.fail(c, "client-patch-not-refused:"+step, "a partial update touching a field the restspec excludes (read-only / create-only) does not fail on the generated client before a request is sent")
+			}
+		case "accepted":
+			if !went {
+				d.fail(c, "client-patch-refused:"+step, "a partial update touching only fields that are not excluded does not go through")
+			} else if valid == nil {
+				valid = w
+			}
+		case "not-on-wire":
+			if refused {
+				return
+			}
+			onWire := false
+			if w != nil {
+				if body, ok := parseJSON(w.ReqBody); ok {
+					mapEntitiesOrdered(body, method, func(e interface{}) interface{} {
+						for _, q := range nested {
+							if hasPath(e, append([]string{"$set", field}, strings.Split(q, "/")...)) {
+								onWire = true
+							}
+						}
+						return e
+					})
+				}
+			}
+			switch {
+			case onWire:
+				d.fail(c, "client-patch-transmits-excluded:"+step, "a partial update that sets a record field transmits a value at a nested path the restspec excludes (it must fail on the client or leave the value out)")
+			case !went:
+				d.fail(c, "client-patch-refused:"+step, "a partial update whose excluded nested value was left out does not go through")
+			}
+		}
+	}
 	for _, f := range rec.Fields {
 		gf := goFieldName(f.Name)
 		sf, ok := entT.Type.FieldByName(gf)
@@ -614,51 +698,43 @@ func (d *c07) patchMethod(mi *methodInfo) {
 		if _, ok := rtypeOf(sf.Type); !ok {
 			continue
 		}
-		for _, op := range []string{"set", "delete"} {
+		nested := below(f.Name)
+		setPatch := func(v reflect.Value) reflect.Value {
 			p := reflect.New(pt.Elem())
-			if op == "set" {
-				g := &genv{r: d.r.Fork(), tame: true}
-				p.Elem().FieldByName("Set_Fields").FieldByName(gf).Set(g.typed(sf.Type))
-			} else {
-				df := p.Elem().FieldByName("Delete_Fields").FieldByName(gf)
-				if !df.IsValid() {
-					continue // a required field cannot be deleted (C11)
-				}
-				df.SetBool(true)
+			p.Elem().FieldByName("Set_Fields").FieldByName(gf).Set(v)
+			return p
+		}
+		switch {
+		case excludedField(f.Name):
+			client("set", f.Name, setPatch((&genv{r: d.r.Fork(), tame: true}).typed(sf.Type)), "refused", nil)
+		case len(nested) > 0:
+			// a record field with excluded paths below it: a value that carries them, and one that does not
+			need := d.need
+			d.need = nested
+			full := d.fullEntity(sf.Type)
+			prunedV := d.fullEntity(sf.Type)
+			d.need = need
+			client("set-nested-full", f.Name, setPatch(full), "not-on-wire", nested)
+			for _, q := range nested {
+				zeroPath(prunedV, strings.Split(q, "/"))
 			}
-			g := &genv{r: d.r.Fork(), tame: true}
-			args := genArgs(g, mi, mt)
-			if d.long && !d.longParams(args, mi) && method != "batch_partial_update" {
-				continue // no query to make long
-			}
-			if method == "batch_partial_update" {
-				mp := reflect.MakeMap(at)
-				n := 1
-				if d.long {
-					n = 40
-				}
-				for _, k := range d.keys(g, at.Key(), n) {
-					mp.SetMapIndex(k, p)
-				}
-				args[ai] = mp
-			} else {
-				args[ai] = p
-			}
-			c := d.newCase(mi, "client:patch-"+op)
-			c.Field = f.Name
-			w, cr := d.call(mi, args, c)
-			d.count(c)
-			if touches(f.Name) {
-				if cr.Err == nil || c.Sent > 0 {
-					d.fail(c, "client-patch-not-refused:"+op, "a partial update touching a field the restspec excludes (read-only / create-only) does not fail on the generated client before a request is sent")
-				}
-			} else {
-				if cr.Err != nil || cr.Paniced != "" || w == nil || c.Status < 200 || c.Status > 299 || c.Invoked != 1 {
-					d.fail(c, "client-patch-refused:"+op, "a partial update touching only fields that are not excluded does not go through")
-				} else if valid == nil {
-					valid = w
-				}
-			}
+			client("set-nested-pruned", f.Name, setPatch(prunedV), "accepted", nil)
+		default:
+			client("set", f.Name, setPatch((&genv{r: d.r.Fork(), tame: true}).typed(sf.Type)), "accepted", nil)
+		}
+		if len(nested) > 0 && !excludedField(f.Name) {
+			continue // deleting a record that has an excluded field below it: left unspecified
+		}
+		p := reflect.New(pt.Elem())
+		df := p.Elem().FieldByName("Delete_Fields").FieldByName(gf)
+		if !df.IsValid() {
+			continue // a required field cannot be deleted (C11)
+		}
+		df.SetBool(true)
+		if excludedField(f.Name) {
+			client("delete", f.Name, p, "refused", nil)
+		} else {
+			client("delete", f.Name, p, "accepted", nil)
 		}
 	}
 	if valid == nil || d.threshold != 0 {
@@ -669,28 +745,30 @@ func (d *c07) patchMethod(mi *methodInfo) {
 	one := func(patch map[string]interface{}) string {
 		return jsonText(mapEntitiesOrdered(cloneJSON(tmpl), method, func(interface{}) interface{} { return cloneJSON(patch) }))
 	}
-	// values of the fields: from a fully populated entity
+	server := func(step, field string, patch map[string]interface{}, reject bool) {
+		c := d.newCase(mi, "server:patch-"+step)
+		c.Field = field
+		d.send(valid, one(patch), c)
+		if reject {
+			d.expectRejected(c, step)
+		} else {
+			d.expectAccepted(c, step)
+		}
+	}
+	// values of the fields: from a fully populated entity (with a value at every excluded path)
 	full := d.fullRecordJSON(recName)
 	for _, f := range rec.Fields {
 		optional := f.IsOptional || f.DefaultValue != nil
-		for _, op := range []string{"set", "delete"} {
-			var patch map[string]interface{}
-			if op == "set" {
-				patch = map[string]interface{}{"$set": map[string]interface{}{f.Name: full[f.Name]}}
-			} else {
-				if !optional {
-					continue
-				}
-				patch = map[string]interface{}{"$delete": []interface{}{f.Name}}
+		nested := below(f.Name)
+		switch {
+		case excludedField(f.Name) || len(nested) == 0:
+			server("set", f.Name, map[string]interface{}{"$set": map[string]interface{}{f.Name: full[f.Name]}}, excludedField(f.Name))
+			if optional {
+				server("delete", f.Name, map[string]interface{}{"$delete": []interface{}{f.Name}}, excludedField(f.Name))
 			}
-			c := d.newCase(mi, "server:patch-"+op)
-			c.Field = f.Name
-			d.send(valid, one(patch), c)
-			if touches(f.Name) {
-				d.expectRejected(c, op)
-			} else {
-				d.expectAccepted(c, op)
-			}
+		default:
+			server("set-nested-full", f.Name, map[string]interface{}{"$set": map[string]interface{}{f.Name: full[f.Name]}}, true)
+			server("set-nested-pruned", f.Name, map[string]interface{}{"$set": map[string]interface{}{f.Name: pruned(full[f.Name], nested)}}, false)
 		}
 	}
 }
